@@ -165,3 +165,73 @@ STATIC = [dict(name="proxy-surface", props=["C17"], run=_proxy_surface)]
 REPLAYS = [("C17", "ProxyFuture.__truediv__", "replay/c17_proxy_division.py"), ("C17", "ProxyFuture.__floordiv__", "replay/c17_proxy_division.py"),
            ("C17", "ProxyFuture.__trunc__", "replay/c17_proxy_division.py")]
 BOUNDED = [("C17", "operator dispatch of builtin operand types: proxy vs plain value (finite corpus)", "bnd/c17_differential.py")]
+
+
+# ---- f_proxy / ProxyFuture.__init__: the configured timeout is the caller's, untouched ------------------------------------------
+PQN = "more_executors._impl.futures.proxy"
+
+
+def _cfg_fproxy():
+    cfg = make_cfg(concurrent=False)
+    cfg.contracts[PQN + ".ProxyFuture.__init__"] = RecordCall()
+    cfg.contracts["more_executors._impl.metrics.track_future"] = RecordCall(ret_fn=lambda e, s: sym_val(e, s, "future", "tracked"))
+    return cfg
+
+
+def _setup_fproxy(variant):
+    def setup(engine, st):
+        f = sym_val(engine, st, "future", "f")
+        kw = {}
+        if variant == "timeout given":
+            kw["timeout"] = sym_val(engine, st, "any", "timeout")       # any value: 0, 0.0 and None included
+        return [f], kw, {"f": f, "kw": kw, "variant": variant, "raw": True}
+    return setup
+
+
+def _post_fproxy(engine, st, ctx, out):
+    inits = [e for e in st.trace if e.kind == "repo-call" and e.meth.endswith("ProxyFuture.__init__")]
+    tr = [e for e in st.trace if e.kind == "repo-call" and e.meth.endswith(".track_future")]
+    ok = len(inits) == 1 and len(tr) == 1 and not isinstance(out, Raise)
+    cl = [("f_proxy(f) builds exactly one ProxyFuture over f, tracks it and returns it", "PC",
+           z3.And(z3.BoolVal(ok), inits[0].args[1] == ctx["f"].t if ok and len(inits[0].args) > 1 else False, tr[0].args[0] == inits[0].args[0] if ok else False,
+                  engine.to_val(st, out) == tr[0].ret if ok else False), ["C17"])]
+    if ok:
+        tmo = inits[0].kwargs.get("timeout", inits[0].args[2] if len(inits[0].args) > 2 else None)
+        if ctx["variant"] == "timeout given":
+            cl.append(("the proxy is configured with exactly the caller's timeout - whatever its value (0 means: never block)", "PC",
+                       (tmo == ctx["kw"]["timeout"].t) if tmo is not None else z3.BoolVal(False), ["C17"]))
+        else:
+            cl.append(("without a timeout the proxy waits MAX_TIMEOUT", "PC",
+                       (tmo == Val.intv(z3.IntVal(60 * 60 * 24 * 365 * 100))) if tmo is not None else z3.BoolVal(False), ["C17"]))
+    return cl
+
+
+def _setup_pinit(engine, st):
+    oid = st.alloc("ProxyFuture")
+    st.assume(cls_of(z3.IntVal(oid)) == engine.tag("ProxyFuture"))
+    me = Z(ref(oid), INST("ProxyFuture"))
+    d = sym_val(engine, st, "future", "delegate")
+    tmo = sym_val(engine, st, "any", "timeout")
+    return [me, d, tmo], {}, {"me": me, "sid": z3.IntVal(oid), "d": d, "tmo": tmo}
+
+
+def _post_pinit(engine, st, ctx, out):
+    cl = [("the constructor does not raise", "EX", not isinstance(out, Raise), ["C17"])]
+    if not isinstance(out, Raise):
+        cl.append(("the proxy remembers the timeout it was given, unchanged", "PC", st.get("_ProxyFuture__timeout", ctx["sid"]) == ctx["tmo"].t, ["C17"]))
+    return cl
+
+
+def _cfg_pinit():
+    cfg = _cfg()
+    cfg.contracts["more_executors._impl.map.MapFuture._delegate_resolved"] = RecordCall()
+    return cfg
+
+
+UNITS += [
+    Unit("f_proxy[timeout given]", "futures.proxy.f_proxy", ["C17"], _setup_fproxy("timeout given"), _post_fproxy, cfg=_cfg_fproxy),
+    Unit("f_proxy[default timeout]", "futures.proxy.f_proxy", ["C17"], _setup_fproxy("default"), _post_fproxy, cfg=_cfg_fproxy),
+    Unit("ProxyFuture.__init__", "futures.proxy.ProxyFuture.__init__", ["C17"], _setup_pinit, _post_pinit, cfg=_cfg_pinit, self_cls="ProxyFuture"),
+]
+
+REPLAYS += [("C17", "f_proxy[", "replay/c17_proxy_timeout.py"), ("C17", "ProxyFuture.__init__", "replay/c17_proxy_timeout.py")]
